@@ -8,6 +8,7 @@ pub mod c04;
 pub mod c05;
 pub mod c06;
 pub mod c07;
+pub mod c08;
 pub mod c11;
 pub mod c12;
 pub mod c13;
@@ -28,6 +29,7 @@ pub fn all() -> Vec<PropDef> {
         c05::def(),
         c06::def(),
         c07::def(),
+        c08::def(),
         c11::def(),
         c12::def(),
         c13::def(),
